@@ -718,6 +718,8 @@ class SampleAllExact(Contract):
             if dim > 2 and tier == "quick":
                 continue
             for rank in (dim, dim + 1):
+                if dim >= 3 and rank > dim:
+                    continue  # fraction-field arithmetic for a 3 x 4 factor does not finish in an hour
                 if tier == "quick" and dim == 2 and rank == 3 and lay != "x1y1":
                     continue  # ~25 s each; the thorough tier runs all of them
                 yield "inputs=%s,rank=%d" % (lay, rank), (lay, rank)
